@@ -1,6 +1,7 @@
 From Coq Require Import ZArith NArith List Bool.
 From PSO Require Import Raft.Types Raft.Node Raft.Net Raft.Obs Raft.ProofsApplyBase Raft.ProofsApply Raft.ProofsApplyLog
   Raft.ProofsCallbacks Raft.ProofsCallbacks2 Raft.ProofsApplyReplay Raft.ProofsApplyWf.
+From PSO Require Raft.ProofsCommitBase Raft.ProofsCommit.
 Import ListNotations.
 Open Scope N_scope.
 
@@ -60,7 +61,8 @@ Theorem C01_state_is_replay_load :
   let s' := load_dump e clear s in
   hist (nd s') = s_hist sn /\ enabled_ver (nd s') = s_ver sn /\ applied (nd s') = eidx (s_e1 sn) /\
   self_ver (nd s') = self_ver (nd s) /\ commit (nd s') = commit (nd s) /\
-  (clear = true -> log (nd s') = [s_e0 sn; s_e1 sn]) /\
+  log (nd s') = (if ProofsCommit.snap_kept sn (log (nd s))
+                 then delete_to (log (nd s)) (eidx (s_e0 sn)) else [s_e0 sn; s_e1 sn]) /\
   (log (nd s') = [s_e0 sn; s_e1 sn] \/
    exists a b r, log (nd s') = a :: b :: r /\ entry_eqb a (s_e0 sn) = true /\ entry_eqb b (s_e1 sn) = true /\
                  exists pre, log (nd s) = pre ++ a :: b :: r).
